@@ -1,6 +1,6 @@
 use crate::{
     ast::{DataType, DataTypeMember, Struct, Variant},
-    attr::{ChildAttr, ChildParentsAttr, DataTypeAttrs, DataTypeInstruction, FallibleKind, GhostsAttr, Kind, MemberAttrs, MemberInstruction, ParentAttr, TraitAttr, TraitAttrCore, TypeHint, TypePath, WhereAttr},
+    attr::{ChildAttr, ChildParentsAttr, DataTypeAttrs, DataTypeInstruction, FallibleKind, GhostIdent, GhostsAttr, Kind, MemberAttrs, MemberInstruction, ParentAttr, TraitAttr, TraitAttrCore, TypeHint, TypePath, WhereAttr},
 };
 use proc_macro2::Span;
 use quote::ToTokens;
@@ -132,6 +132,11 @@ pub(crate) fn validate(input: &DataType) -> Result<()> {
             validate_fields(s, attrs, &data_type_attrs_by_kind, &type_paths, &mut errors);
         },
         DataType::Enum(e) => {
+            for ghost_data in attrs.ghosts_attrs.iter().flat_map(|x| &x.attr.ghost_data) {
+                if let GhostIdent::Member(syn::Member::Unnamed(index)) = &ghost_data.ghost_ident {
+                    errors.insert("Enum-level #[ghosts(...)] should name a variant of the other type, not an index.".into(), index.span);
+                }
+            }
             for v in &e.variants {
                 validate_variant_fields(v, attrs, &type_paths, &mut errors);
             }
